@@ -42,6 +42,7 @@ def run(idx: ProgramIndex, rep: Report, tier: str):
     batch_leading(idx, rep)
     reductions(idx, rep)
     list_routing(idx, rep, "IndependentModelList", "models", "C08-3", 3)
+    param_expansion(idx, rep)
 
 
 def _families(idx: ProgramIndex) -> List[ClassInfo]:
@@ -201,3 +202,58 @@ def reductions(idx: ProgramIndex, rep: Report):
             else:
                 rep.observe("C08-2", inst, where, "dim `%s` is not a literal: undetermined" % src(dim))
     rep.floor("C08-2", "reductions inspected", n, 25)
+
+
+# ---- C08-4: a batched parameter is broadcast against the data, never expanded to the data's shape alone -------------------
+def param_expansion(idx: ProgramIndex, rep: Report):
+    """"including when data or parameters are broadcast against each other": `P.expand(S)` with P derived from a parameter and S
+    derived from the data only fixes the output batch shape to the data's - it raises (or, with size-1 parameter batches, silently
+    drops the parameter batch) when the parameter batch is larger.  S must be built from both batch shapes: torch.broadcast_shapes,
+    the shape of a value that already is the broadcast result, self.batch_shape, or P's own shape.  Decided on inlined expressions
+    in the forward methods of means, kernels and noise models."""
+    from ..symbolic import inline, walk_paths
+    rep.rule("C08-4", "in forward code a parameter is expanded to a shape built from the parameter's and the data's batch shapes (broadcast), never from the data's shape alone")
+    n = 0
+    for cls in _families(idx):
+        fi = cls.methods.get("forward")
+        if fi is None or not fi.params:
+            continue
+        sn = fi.params[0]
+        data_params = set(fi.params[1:])
+        regs = {name for kind, name, m, node, verdict in registrations(idx, cls) if name.isidentifier()}
+        for k in cls.repo_mro():
+            regs |= {name for kind, name, m, node, verdict in registrations(idx, k) if name.isidentifier()}
+        props = {nm for nm, m in cls.all_methods().items() if m.kind == "property"}
+        if not any(isinstance(c, ast.Call) and isinstance(c.func, ast.Attribute) and c.func.attr in ("expand", "expand_as") for c in ast.walk(fi.node)):
+            continue
+        seen = set()
+        for path, seq in walk_paths(fi):
+            for st, env in seq:
+                if not isinstance(st, ast.stmt):
+                    continue
+                for c in (x for x in ast.walk(st) if isinstance(x, ast.Call)):
+                    if not (isinstance(c.func, ast.Attribute) and c.func.attr in ("expand", "expand_as") and c.args):
+                        continue
+                    recv = inline(c.func.value, env)
+                    shape_args = [inline(a.value if isinstance(a, ast.Starred) else a, env) for a in c.args]
+
+                    def self_attrs(e):
+                        return {x.attr for x in ast.walk(e) if isinstance(x, ast.Attribute) and isinstance(x.value, ast.Name) and x.value.id == sn}
+                    pattrs = self_attrs(recv) & (regs | props | {"raw_" + r for r in regs})
+                    if not pattrs or any(isinstance(x, ast.Name) and x.id in data_params for x in ast.walk(recv)):
+                        continue  # the expanded tensor is not a pure parameter value
+                    key = (c.lineno, c.col_offset)
+                    if key in seen:
+                        continue
+                    seen.add(key)
+                    n += 1
+                    from_data = any(isinstance(x, ast.Name) and x.id in data_params for a in shape_args for x in ast.walk(a))
+                    from_param = any(self_attrs(a) for a in shape_args) or any(isinstance(x, ast.Call) and (chain(x.func) or "").endswith("broadcast_shapes") for a in shape_args for x in ast.walk(a))
+                    # a value computed from both (e.g. `res = x @ self.weights`) carries the broadcast shape
+                    inst = "%s:%s.forward:%s.expand" % (cls.module.name, cls.qualname, "/".join(sorted(pattrs)))
+                    where = "%s:%d" % (fi.module.relpath, c.lineno)
+                    ok = not from_data or from_param
+                    rep.add("C08-4", inst, where, ok,
+                            "expanded to a shape that involves the parameter's own batch shape (broadcast)" if ok else
+                            "`%s` expands the parameter to a shape taken from the data alone: a parameter batch that is larger than (or broadcast against a size-1 dimension of) the data batch raises or is dropped instead of producing the broadcast batch" % " ".join(src(c).split())[:80], {})
+    rep.floor("C08-4", "expansions of parameters in forward code", n, 4)
